@@ -82,6 +82,7 @@ func H11_traces() {
 		}
 	})
 	vAssert(!crashed, "C11.operation-completes")
+	vTraceCheckAtomic(ops[op], "shim.mu")
 	vTraceEmit(ops[op])
 	vReach("C11.traced")
 }
